@@ -23,7 +23,7 @@ CLAIMED = {
              design="DESIGN.md 3/U3, 4/C12, 5", technique="Verus precondition admitting every crash-prefix + postconditions on extracted real recv"),
  "C18": dict(text="Verus on the real bodies: every slice/index in send, every Vec::set_len <= capacity, every control-buffer read inside the 64-descriptor buffer, no arithmetic overflow/underflow, both assert!s and pop().unwrap() in recv, CMSG_ALIGN arithmetic; set_len is specified to leave new bytes unspecified, so the proved equality of the result with the sender's bytes implies every byte was written by the transport. FFI-plumbing bodies (send_first_fragment's malloc/copy, UnixCmsg::new) are trusted stubs, listed in the evidence.",
              design="DESIGN.md 3/U1 U2 U3, 4/C18", technique="Verus auto-obligations (overflow, bounds, unwrap, assert!) + std safety contracts as call-site preconditions"),
- "C10": dict(text="Part of the property, proved on the real unix::recv (Verus): follow-up fragments are always read with flags == 0 (blocking) whatever the mode, so a started message is finished; with nothing queued recv returns Err and consumes nothing. The O_NONBLOCK set/clear discipline and poll timeout of UnixCmsg::recv are the Kani harnesses (K4) when present in the evidence.",
+ "C10": dict(text="Part of the property, proved on the real unix::recv (Verus): follow-up fragments are always read with flags == 0 (blocking) whatever the mode, so a started message is finished; with nothing queued recv returns Err and consumes nothing. Kani on the real UnixCmsg::recv with fcntl/poll/recvmsg stubbed and ALL return values symbolic (loop-free, complete): Nonblocking issues exactly one recvmsg with O_NONBLOCK set and the flag is clear again on return on every path; Timeout(d) polls once for POLLIN with timeout == d in whole milliseconds (-1 if not representable), reports EAGAIN without reading iff poll returned 0; result mapping Ok/ChannelClosed/Errno; Verus: Empty iff EAGAIN/EWOULDBLOCK.",
              design="DESIGN.md 3/U3 U4, 4/C10", technique="Verus call-site precondition on the recv stub (flags) + postcondition"),
  "C14": dict(text="Verus on the real IpcSender::send and OpaqueIpcMessage::to after thread-local elimination (the four RefCell lists become fields of an explicit &mut Tls): on EVERY exit path the four lists equal their entry values, and messages already handed to the OS layer are never retracted; the serialiser stub's contract (lists only grow; complete nested sends allowed) is exactly what send's own postcondition re-establishes, so nesting is covered inductively; serialize_os_ipc_sender/receiver and IpcSharedMemory::serialize push exactly one entry and leave the rest alone.",
              design="DESIGN.md 3/U7, 4/C14", technique="Verus frame postconditions on every exit of extracted real code (thread-locals made explicit)",
@@ -37,6 +37,11 @@ CLAIMED = {
  "C17": dict(text="Verus on the real Router::run: '!acked' is an invariant of the service loop (no select, no handler call, no registration after the acknowledgement: call-site obligations), every callback has been dropped when the acknowledgement is sent (ghost count at the ack stub == 0), run leaves no callback behind when it stops by shutdown or proxy drop, and both unwraps / the expect are total. Racing shutdown/add_route callers are argued only from 'one mutex, never taken by run'.",
              design="DESIGN.md 3/U6, 4/C17, 5", technique="Verus invariants + call-site preconditions (ghost 'acked' flag) on extracted real code",
              note="Trusted: as C07; the proxy is blocked on the acknowledgement channel when the ack is sent; termination of the service loop is not claimed (exec_allows_no_decreases_clause)."),
+ "C11": dict(text="Part of the property: per-operation ownership contracts 'created - closed = owned by the returned handles' proved by Kani on the REAL functions (real drop elaboration) with socket/socketpair/connect/close/munmap replaced by a descriptor ledger: channel() both outcomes, OsIpcSender::connect with connect(2)/socket(2) failing nondeterministically, OsIpcReceiver::consume + drops, OsIpcSender clone x2 + drops (one close, at the last drop), OsOpaqueIpcChannel converted/unconverted + drop, OsIpcSharedMemory drop (munmap iff mapped, one close); SOCK_CLOEXEC / MSG_CMSG_CLOEXEC asserted in the stubs; never close(-1), never twice. Loop-free harnesses over fully symbolic syscall outcomes: complete, not bounded. NOT covered: send's dedicated pair and recv's error paths, OsIpcOneShotServer, OsIpcReceiverSet, router, temp files.",
+             design="DESIGN.md 3/K-ledger, 4/C11", technique="Kani loop-free harnesses on the real crate with libc stubbed by a descriptor ledger",
+             note="Trusted: the ledger stubs (fresh descriptors, close succeeds), Kani/CBMC; histories are covered only through composition of the per-operation contracts."),
+ "C03": dict(text="Part of the property (mechanisms, not the history quantifier): Verus on the real conversions - TryRecvError::Empty iff Errno(EAGAIN|EWOULDBLOCK), Disconnected iff UnixError::ChannelClosed (TryRecvError and IpcError), channel_is_closed() only for ChannelClosed; Kani on the real UnixCmsg::recv - ChannelClosed iff recvmsg returned 0, for all three blocking modes; Kani ledger - the shared descriptor of cloned senders is closed once, at the last drop; Verus on unix::recv - ChannelClosed only for EOF on the channel's own socket (open known finding, shared with C12). That the kernel reports EOF exactly when no descriptor (in flight or not) refers to the peer is assumed; clone/embed/drop races are not addressed.",
+             design="DESIGN.md 3/U3 U4 K-ledger, 4/C03", technique="Verus postconditions on extracted conversions + Kani loop-free harnesses on the real crate"),
  "C09": dict(text="Verus, part of the property: on the real OsIpcSender::send every transmission failure that is not a recoverable ENOBUFS is returned as Err (ghost attempt log), a failed send leaves at most one packet on the shared socket, and the retry loop terminates for every error pattern. That the kernel reports EPIPE/ECONNRESET and raises no SIGPIPE is assumed.",
              design="DESIGN.md 3/U2, 4/C09", technique="Verus postconditions over a ghost transmission log"),
 }
